@@ -301,7 +301,11 @@ class WorkerPool:
             for worker_id in range(len(self._workers)):
                 try:
                     worker = self._workers[worker_id]
-                    worker_died = self._worker_comms.is_worker_alive(worker_id) and not worker.is_alive()
+
+                    # A worker that is being (re)started can already be running, and have marked itself alive, before
+                    # its own process object knows that it has been started. Until then is_alive() returns False
+                    worker_died = (self._worker_comms.is_worker_alive(worker_id) and worker.ident is not None and
+                                   not worker.is_alive())
 
                     # A worker that stops normally marks itself as dead right before it exits, and a worker that is
                     # restarted is replaced by a new worker object which marks itself alive again. Both can happen in
@@ -1069,6 +1073,11 @@ class WorkerPool:
                         # go wrong elsewhere (e.g., the exit function of another worker timed out or raised), in which
                         # case we shouldn't keep waiting here, but terminate the remaining workers
                         while not self._worker_comms.exception_thrown():
+                            # A worker that is being restarted can already be running (and consume its poison pill)
+                            # before its own process object knows that it has been started. It can't be joined yet then
+                            if worker_process.ident is None:
+                                time.sleep(0.01)
+                                continue
                             worker_process.join(timeout=0.01)
                             if not worker_process.is_alive():
                                 break
